@@ -406,6 +406,18 @@ func (net *Net) Deliver(p *Packet, to int) bool {
 	return true
 }
 
+// Redeliver hands node `to` a packet it has already received (the network duplicates messages: several peers gossip
+// the same vote, proposal or part).
+func (net *Net) Redeliver(p *Packet, to int) bool {
+	n := net.Nodes[to]
+	if n == nil || n.Crashed != "" || !p.Seen[to] || !net.Allowed(p, to) {
+		return false
+	}
+	p.Seen[to] = false
+	net.Logf("duplicate of #%d follows", p.ID)
+	return net.Deliver(p, to)
+}
+
 // Allowed reports whether p may currently be delivered to node `to`.
 func (net *Net) Allowed(p *Packet, to int) bool {
 	if p.Only != nil && !p.Only[to] {
